@@ -1,1 +1,800 @@
-pub fn run(_args: &vcommon::Args) { unimplemented!() }
+//! C20 — Signed refs text round-trips and signatures bind exactly what is accepted.
+//!
+//! Ground truth of a case: a map name -> oid built by the generator (names accepted by
+//! `RefString::try_from`, oids non-zero), a signer seed, and the honest signature over the
+//! reference rendering of the canonical text (`<40 hex> <name>\n`, names in byte order).
+//!
+//! Oracle (independent of `Refs::canonical` / `SignedRefs::verify`):
+//!  * `Refs::from_canonical(refs.canonical())` == refs;
+//!  * whenever `SignedRefs::verified` / `SignedRefs::load_at` ACCEPTS (refs', key', sig') — honest,
+//!    mutated at struct level, mutated at blob level, or loaded from a real git commit — then
+//!    `key'.verify(own_canonical(accepted refs), sig')` must hold (ed25519 verification itself is
+//!    trusted), and the returned `SignedRefs<Verified>` carries exactly (refs', key', sig').
+//!    With an honest signature by `key` over `R`, this is equivalent to: acceptance after changing
+//!    any ref, oid or key is a violation, while blob mutations that parse to the same ref set
+//!    (hex case, `\r\n`, shortened zero-padded oids, re-ordered lines) are legitimately accepted.
+//!
+//! Reading of the statement (rule 1): rejection of an honest triple is not forbidden by the
+//! statement ("succeeds only when"): reported as inconclusive. The repository-id binding through
+//! `refs/rad/root` is exercised on two real repositories but only counted (it belongs to C01).
+//! Panics are outside the statement: inconclusive.
+use std::collections::BTreeMap;
+use std::path::Path;
+
+use radicle::crypto::test::signer::MockSigner;
+use radicle::crypto::{PublicKey, Signature};
+use radicle::git::{self, RefString};
+use radicle::identity::doc::RawDoc;
+use radicle::identity::{Did, Project, Visibility};
+use radicle::node::device::Device;
+use radicle::node::Alias;
+use radicle::storage::git::{Repository, Storage};
+use radicle::storage::refs::{Refs, SignedRefs};
+use vcommon::{guarded, hex, json, unhex, Args, Reporter, Rng, Value};
+
+type Dev = Device<MockSigner>;
+type Truth = BTreeMap<String, [u8; 20]>;
+
+// ---------------------------------------------------------------------------------------------
+// fixtures: one real storage with two repositories per process
+
+struct Fx {
+    _dir: tempfile::TempDir,
+    a: Repository,
+    b: Repository,
+    root_a: [u8; 20],
+    root_b: [u8; 20],
+}
+
+fn fixture() -> Result<Fx, String> {
+    let dir = crate::scratch_dir().map_err(|e| e.to_string())?;
+    let dev: Dev = Device::mock_from_seed([7u8; 32]);
+    let storage = Storage::open(dir.path().join("storage"), git::UserInfo { alias: Alias::new("verif"), key: *dev.public_key() }).map_err(|e| e.to_string())?;
+    let mk = |name: &str| -> Result<(Repository, [u8; 20]), String> {
+        let project = Project::new(name.to_string().try_into().map_err(|_| "name")?, "verif".to_string(), RefString::try_from("master").expect("master")).map_err(|e| format!("{e:?}"))?;
+        let doc = RawDoc::new(project, vec![Did::from(*dev.public_key())], 1, Visibility::Public).verified().map_err(|e| e.to_string())?;
+        let (repo, commit) = Repository::init(&doc, &storage, &dev).map_err(|e| e.to_string())?;
+        let mut c = [0u8; 20];
+        c.copy_from_slice(commit.as_bytes());
+        Ok((repo, c))
+    };
+    let (a, root_a) = mk("alpha")?;
+    let (b, root_b) = mk("beta")?;
+    Ok(Fx { _dir: dir, a, b, root_a, root_b })
+}
+
+// ---------------------------------------------------------------------------------------------
+// reference model
+
+fn own_canonical(r: &Truth) -> Vec<u8> {
+    let mut out = Vec::new();
+    for (name, oid) in r {
+        out.extend(hex(oid).bytes());
+        out.push(b' ');
+        out.extend(name.bytes());
+        out.push(b'\n');
+    }
+    out
+}
+
+fn to_oid(b: &[u8; 20]) -> git::Oid {
+    git::Oid::from(git2::Oid::from_bytes(b).expect("20 bytes"))
+}
+
+fn to_refs(r: &Truth) -> Option<Refs> {
+    let mut m: BTreeMap<RefString, git::Oid> = BTreeMap::new();
+    for (n, o) in r {
+        m.insert(RefString::try_from(n.clone()).ok()?, to_oid(o));
+    }
+    Some(Refs::from(m))
+}
+
+fn from_refs(r: &Refs) -> Truth {
+    r.iter()
+        .map(|(n, o)| {
+            let mut b = [0u8; 20];
+            b.copy_from_slice(o.as_bytes());
+            (n.as_str().to_string(), b)
+        })
+        .collect()
+}
+
+fn own_verify(key: &PublicKey, text: &[u8], sig: &Signature) -> bool {
+    key.verify(text, &sig.0).is_ok()
+}
+
+fn signer(seed: &[u8; 32]) -> Dev {
+    Device::mock_from_seed(*seed)
+}
+
+// ---------------------------------------------------------------------------------------------
+// generators
+
+const OK_ATOMS: &[&str] = &[
+    "a", "b", "z", "A", "Z", "0", "9", "-", "_", "+", "=", "!", "\"", "#", "$", "%", "&", "'", "(", ")", ",", ";", "<", ">", "]", "`", "{", "|", "}",
+    "@", ".", "é", "e\u{301}", "日本", "\u{85}", "\u{a0}", "\u{2028}", "\u{feff}", "😀", "lock", "x.lockx", "a.loc", "@a", "a@", "a.b", "-", "HEAD", "refs", "heads",
+];
+const RISKY_ATOMS: &[&str] = &[".lock", "..", "~", "^", ":", "?", "*", "[", "\\", " ", "\t", "\u{7f}", "\u{0}", "\r", "\n", "@{", "//", ".", "@"];
+const PREFIXES: &[&str] = &["refs/heads/", "refs/heads/", "refs/tags/", "refs/cobs/xyz.radicle.issue/", "refs/cobs/xyz.radicle.patch/", "refs/rad/", "refs/notes/", "", "refs/namespaces/z6Mk/refs/heads/", "refs/remotes/origin/"];
+const FIXED: &[&str] = &["refs/rad/sigrefs", "refs/rad/id", "HEAD", "refs/heads/master", "refs/heads/main", "refs/heads/a", "refs/heads/a/b", "refs/heads/a-b", "refs/heads/a.b", "refs/heads/a!", "refs/heads/@", "refs/@/a", "a"];
+
+fn gen_component(rng: &mut Rng) -> String {
+    match rng.below(14) {
+        0 => {
+            // long components around 255 bytes and beyond
+            let n = *rng.pick(&[254usize, 255, 256, 1000, 4096]);
+            let mut s = "c".repeat(n - 1);
+            s.push_str(*rng.pick(&["a", "é", ".", "@", "k"]));
+            s
+        }
+        1 => rng.pick(&["@", "a@", "@a", "a.lock", "a.lockb", "a.loc", "lock", ".a", "a.", "a.b", "a..b", "a@{b", "{a@", "a@{", "-a", "a~", "a^1"]).to_string(),
+        _ => {
+            let n = 1 + rng.usize(4);
+            (0..n).map(|_| if rng.chance(1, 12) { *rng.pick(RISKY_ATOMS) } else { *rng.pick(OK_ATOMS) }).collect()
+        }
+    }
+}
+
+fn gen_name(rng: &mut Rng) -> String {
+    if rng.chance(1, 10) {
+        return rng.pick(FIXED).to_string();
+    }
+    let mut s = rng.pick(PREFIXES).to_string();
+    let depth = if rng.chance(1, 40) { 20 + rng.usize(40) } else { 1 + rng.usize(3) };
+    for i in 0..depth {
+        if i > 0 {
+            s.push('/');
+        }
+        s.push_str(&gen_component(rng));
+    }
+    s
+}
+
+fn gen_oid(rng: &mut Rng) -> [u8; 20] {
+    let mut o = [0u8; 20];
+    match rng.below(10) {
+        0 => o[19] = 1,
+        1 => o[0] = 1,
+        2 => o = [0xff; 20],
+        3 => {
+            // trailing zero bytes (hex text ends in zeros: short-hex parsing would pad the same way)
+            rng.fill(&mut o[..10]);
+            o[0] |= 1;
+        }
+        4 => {
+            rng.fill(&mut o[10..]);
+            o[19] |= 1;
+        }
+        _ => {
+            rng.fill(&mut o);
+            o[7] |= 1;
+        }
+    }
+    o
+}
+
+struct Case {
+    truth: Truth,
+    seed: [u8; 32],
+    with_root: bool,
+}
+
+fn gen_case(rng: &mut Rng, rep: &mut Reporter, fx: &Fx) -> Case {
+    let n = match rng.below(50) {
+        0 => 0,
+        1 => 200 + rng.usize(200),
+        2..=12 => 1,
+        13..=22 => 2,
+        _ => 3 + rng.usize(10),
+    };
+    let mut truth = Truth::new();
+    let mut tries = 0;
+    while truth.len() < n && tries < n * 6 + 10 {
+        tries += 1;
+        let name = gen_name(rng);
+        match RefString::try_from(name.clone()) {
+            Ok(_) => {
+                if name == "refs/rad/root" {
+                    continue;
+                }
+                if !name.is_ascii() { rep.count("name.non-ascii"); }
+                if name.contains('@') { rep.count("name.with-at"); }
+                if name.contains('.') { rep.count("name.with-dot"); }
+                if name.len() >= 254 { rep.count("name.component-of-254-bytes-or-more"); }
+                if name.contains("lock") { rep.count("name.lock-adjacent"); }
+                truth.insert(name, gen_oid(rng));
+            }
+            Err(_) => rep.count("name.rejected-by-RefString"),
+        }
+    }
+    // related names: share a prefix with an existing one
+    if let Some(k) = truth.keys().next().cloned() {
+        if rng.chance(1, 3) {
+            for suffix in ["/x", "-", "0", "!", ".x"] {
+                let name = format!("{k}{suffix}");
+                if rng.bool() && RefString::try_from(name.clone()).is_ok() {
+                    truth.insert(name, gen_oid(rng));
+                    rep.count("name.prefix-related");
+                }
+            }
+        }
+    }
+    let with_root = rng.chance(1, 4);
+    if with_root {
+        truth.insert("refs/rad/root".into(), fx.root_a);
+    }
+    let mut seed = [0u8; 32];
+    rng.fill(&mut seed);
+    Case { truth, seed, with_root }
+}
+
+// ---------------------------------------------------------------------------------------------
+// judging one (refs', key', sig') triple
+
+fn refs_json(r: &Truth) -> Value {
+    Value::Array(r.iter().map(|(n, o)| json!([n, hex(o)])).collect())
+}
+
+fn refs_from_json(v: &Value) -> Truth {
+    v.as_array()
+        .map(|a| {
+            a.iter()
+                .filter_map(|e| {
+                    let n = e[0].as_str()?.to_string();
+                    let o = unhex(e[1].as_str()?)?;
+                    let mut b = [0u8; 20];
+                    if o.len() != 20 {
+                        return None;
+                    }
+                    b.copy_from_slice(&o);
+                    Some((n, b))
+                })
+                .collect()
+        })
+        .unwrap_or_default()
+}
+
+#[derive(Clone, Copy, PartialEq)]
+enum Expect {
+    /// honest triple: acceptance expected (rejection = inconclusive)
+    Honest,
+    /// mutated: anything goes as long as what is accepted is covered by the signature
+    Mutated,
+}
+
+/// `SignedRefs::new(refs', key', sig').verified(repo)` under the oracle. Returns whether accepted.
+#[allow(clippy::too_many_arguments)]
+fn judge_struct(rep: &mut Reporter, repo: &Repository, r: &Truth, key: &PublicKey, sig: &Signature, label: &str, expect: Expect, base: &Value) -> Option<bool> {
+    rep.eval();
+    let Some(refs) = to_refs(r) else {
+        rep.inconclusive("mutated name is not a RefString", json!({"label": label}));
+        return None;
+    };
+    let wit = || {
+        let mut w = base.clone();
+        w["mutation"] = json!({"path": "struct", "label": label, "refs": refs_json(r), "key": key.to_string(), "sig": hex(sig.as_ref())});
+        w
+    };
+    let (k, s) = (*key, *sig);
+    let refs2 = refs.clone();
+    match guarded(move || SignedRefs::new(refs2, k, s).verified(repo).map_err(|e| e.to_string())) {
+        Err(p) => {
+            rep.inconclusive("panic in SignedRefs::verified", json!({"panic": p, "witness": wit()}));
+            None
+        }
+        Ok(Err(e)) => {
+            rep.count(&format!("rejected:{label}"));
+            if expect == Expect::Honest {
+                rep.inconclusive("honest signed refs were rejected", json!({"error": e, "witness": wit()}));
+            }
+            Some(false)
+        }
+        Ok(Ok(v)) => {
+            rep.count(&format!("accepted:{label}"));
+            let accepted = from_refs(&v.refs);
+            if !own_verify(&v.id, &own_canonical(&accepted), &v.signature) {
+                rep.violation(&format!("C20/verify/accepted-but-signature-does-not-cover-accepted-refs/{label}"), wit());
+            }
+            if accepted != *r || v.id != *key || v.signature != *sig {
+                rep.violation("C20/verify/verified-value-differs-from-what-was-checked", wit());
+            }
+            Some(true)
+        }
+    }
+}
+
+/// Blob-level: `from_canonical(blob)` then `verified`, same oracle.
+fn judge_blob(rep: &mut Reporter, repo: &Repository, blob: &[u8], truth: &Truth, key: &PublicKey, sig: &Signature, label: &str, base: &Value) {
+    rep.eval();
+    let b2 = blob.to_vec();
+    let parsed = match guarded(move || Refs::from_canonical(&b2).map_err(|e| e.to_string())) {
+        Err(p) => {
+            rep.inconclusive("panic in Refs::from_canonical", json!({"panic": p, "blob_hex": hex(blob)}));
+            return;
+        }
+        Ok(Err(_)) => {
+            rep.count("blob-mutation.unparsable");
+            return;
+        }
+        Ok(Ok(r)) => r,
+    };
+    let rm = from_refs(&parsed);
+    let wit = || {
+        let mut w = base.clone();
+        w["mutation"] = json!({"path": "blob", "label": label, "blob_hex": hex(blob), "key": key.to_string(), "sig": hex(sig.as_ref())});
+        w
+    };
+    let same = rm == *truth;
+    if same {
+        rep.count("blob-mutation.parses-to-same-refs");
+    } else {
+        rep.count("blob-mutation.parses-to-different-refs");
+    }
+    // every accepted text denotes a ref set that must round-trip as well
+    if rm.values().all(|o| o != &[0u8; 20]) {
+        let p2 = parsed.clone();
+        match guarded(move || Refs::from_canonical(&p2.canonical()).map(|x| x == p2).map_err(|e| e.to_string())) {
+            Ok(Ok(true)) => {}
+            other => rep.violation("C20/roundtrip/parsed-refs-do-not-round-trip", json!({"blob_hex": hex(blob), "got": format!("{other:?}")})),
+        }
+    }
+    let (k, s) = (*key, *sig);
+    match guarded(move || SignedRefs::new(parsed, k, s).verified(repo).map_err(|e| e.to_string())) {
+        Err(p) => rep.inconclusive("panic in SignedRefs::verified", json!({"panic": p, "witness": wit()})),
+        Ok(Err(_)) => rep.count("blob-mutation.rejected"),
+        Ok(Ok(v)) => {
+            rep.count("blob-mutation.accepted");
+            let accepted = from_refs(&v.refs);
+            if !own_verify(&v.id, &own_canonical(&accepted), &v.signature) {
+                let sig_name = if same { "C20/verify/accepted-but-signature-does-not-cover-accepted-refs/blob" } else { "C20/verify/mutated-refs-blob-accepted-with-different-refs" };
+                rep.violation(sig_name, wit());
+            } else if !same {
+                // own verification passes for a different ref set with the old signature: impossible
+                // unless the signature scheme is broken; keep it visible
+                rep.violation("C20/verify/mutated-refs-blob-accepted-with-different-refs", wit());
+            }
+        }
+    }
+}
+
+/// Through git: a commit with `refs` and `signature` blobs, loaded with `SignedRefs::load_at`.
+fn judge_git(rep: &mut Reporter, repo: &Repository, blob: &[u8], sigbytes: &[u8], key: &PublicKey, label: &str, base: &Value) {
+    rep.eval();
+    let raw = &repo.backend;
+    let commit = (|| -> Result<git2::Oid, git2::Error> {
+        let rb = raw.blob(blob)?;
+        let sb = raw.blob(sigbytes)?;
+        let mut tb = raw.treebuilder(None)?;
+        tb.insert("refs", rb, 0o100_644)?;
+        tb.insert("signature", sb, 0o100_644)?;
+        let tree = raw.find_tree(tb.write()?)?;
+        let who = git2::Signature::new("verif", "verif@localhost", &git2::Time::new(1_700_000_000, 0))?;
+        raw.commit(None, &who, &who, "sigrefs", &tree, &[])
+    })();
+    let commit = match commit {
+        Ok(c) => c,
+        Err(e) => {
+            rep.inconclusive("cannot write sigrefs commit", json!({"error": e.to_string()}));
+            return;
+        }
+    };
+    let wit = || {
+        let mut w = base.clone();
+        w["mutation"] = json!({"path": "git", "label": label, "blob_hex": hex(blob), "key": key.to_string(), "sig": hex(sigbytes)});
+        w
+    };
+    let k = *key;
+    match guarded(move || SignedRefs::load_at(commit.into(), k, repo).map_err(|e| e.to_string())) {
+        Err(p) => rep.inconclusive("panic in SignedRefs::load_at", json!({"panic": p, "witness": wit()})),
+        Ok(Err(_)) => rep.count(&format!("git.rejected:{label}")),
+        Ok(Ok(v)) => {
+            rep.count(&format!("git.accepted:{label}"));
+            let accepted = from_refs(&v.refs);
+            if v.id != *key || v.signature.as_ref() != sigbytes || !own_verify(&v.id, &own_canonical(&accepted), &v.signature) {
+                rep.violation(&format!("C20/load-at/accepted-but-signature-does-not-cover-accepted-refs/{label}"), wit());
+            }
+        }
+    }
+}
+
+fn other_valid_name(rng: &mut Rng, avoid: &Truth) -> String {
+    for _ in 0..50 {
+        let n = gen_name(rng);
+        if !avoid.contains_key(&n) && n != "refs/rad/root" && RefString::try_from(n.clone()).is_ok() {
+            return n;
+        }
+    }
+    format!("refs/heads/fresh-{}", rng.u32())
+}
+
+fn mutate_blob(rng: &mut Rng, t: &[u8]) -> (Vec<u8>, &'static str) {
+    let mut v = t.to_vec();
+    match rng.below(12) {
+        0 | 1 | 2 if !v.is_empty() => {
+            let i = rng.usize(v.len());
+            v[i] ^= 1 << rng.below(8);
+            (v, "bit-flip")
+        }
+        3 if !v.is_empty() => {
+            let i = rng.usize(v.len());
+            v.remove(i);
+            (v, "byte-deleted")
+        }
+        4 => {
+            let i = rng.usize(v.len() + 1);
+            v.insert(i, *rng.pick(&[b' ', b'\n', b'\r', b'0', b'a', b'f', b'/', 0u8, b'\t', 0xc3]));
+            (v, "byte-inserted")
+        }
+        5 => {
+            // drop / duplicate / swap whole lines
+            let mut lines: Vec<&[u8]> = t.split_inclusive(|b| *b == b'\n').collect();
+            if lines.is_empty() {
+                return (b"\n".to_vec(), "line-op");
+            }
+            match rng.below(3) {
+                0 => {
+                    let i = rng.usize(lines.len());
+                    lines.remove(i);
+                }
+                1 => {
+                    let i = rng.usize(lines.len());
+                    let l = lines[i];
+                    let at = rng.usize(lines.len() + 1);
+                    lines.insert(at, l);
+                }
+                _ => lines.reverse(),
+            }
+            (lines.concat(), "line-op")
+        }
+        6 => {
+            v.extend(format!("{} refs/heads/extra\n", "0".repeat(40)).bytes());
+            (v, "zero-oid-line-appended")
+        }
+        7 => {
+            v.extend(format!("{} refs/heads/extra\n", hex(&gen_oid(rng))).bytes());
+            (v, "line-appended")
+        }
+        8 => {
+            let n = rng.usize(v.len() + 1);
+            v.truncate(n);
+            (v, "truncated")
+        }
+        9 => {
+            // \r\n line ends
+            let mut o = vec![];
+            for b in t {
+                if *b == b'\n' {
+                    o.push(b'\r');
+                }
+                o.push(*b);
+            }
+            (o, "crlf")
+        }
+        10 => {
+            // upper-case hex / shortened oid of the first line
+            if rng.bool() {
+                for b in v.iter_mut().take(40) {
+                    b.make_ascii_uppercase();
+                }
+                (v, "upper-case-hex")
+            } else if v.len() > 41 {
+                let cut = 1 + rng.usize(6);
+                v.drain(40 - cut..40);
+                (v, "oid-shortened")
+            } else {
+                (v, "noop")
+            }
+        }
+        _ => {
+            if let Some(p) = t.iter().position(|b| *b == b' ') {
+                // re-point the first ref
+                let o = hex(&gen_oid(rng));
+                v.splice(0..p, o.bytes());
+            }
+            (v, "oid-replaced-in-text")
+        }
+    }
+}
+
+fn run_case(rep: &mut Reporter, rng: &mut Rng, fx: &Fx, exhaustive: bool, git_sample: bool) {
+    let case = gen_case(rng, rep, fx);
+    let truth = &case.truth;
+    let dev = signer(&case.seed);
+    let key = *dev.public_key();
+    let base = json!({"refs": refs_json(truth), "signer_seed": hex(&case.seed)});
+    let text = own_canonical(truth);
+    rep.count(match truth.len() { 0 => "set.empty", 1 => "set.one-ref", 2..=20 => "set.2-to-20-refs", _ => "set.many-refs" });
+    rep.max("refs-in-set", truth.len() as u64);
+
+    // (1) text round trip
+    rep.eval();
+    let Some(refs) = to_refs(truth) else { return };
+    let r2 = refs.clone();
+    match guarded(move || {
+        let t = r2.canonical();
+        (Refs::from_canonical(&t).map_err(|e| e.to_string()), t)
+    }) {
+        Err(p) => rep.inconclusive("panic in canonical/from_canonical", json!({"panic": p, "witness": base})),
+        Ok((Ok(back), t)) => {
+            if back == refs && from_refs(&back) == *truth {
+                rep.count("roundtrip.ok");
+            } else {
+                rep.violation("C20/roundtrip/parsed-set-differs", json!({"refs": refs_json(truth), "canonical_hex": hex(&t), "parsed": refs_json(&from_refs(&back))}));
+            }
+            if t != text {
+                rep.inconclusive("canonical text differs from the reference rendering; signature checks skipped", json!({"canonical_hex": hex(&t), "reference_hex": hex(&text)}));
+                return;
+            }
+        }
+        Ok((Err(e), t)) => {
+            rep.violation("C20/roundtrip/canonical-text-rejected", json!({"refs": refs_json(truth), "canonical_hex": hex(&t), "error": e}));
+            return;
+        }
+    }
+    rep.nontrivial(vcommon::fnv(&text));
+
+    // (2) honest signature
+    let r3 = refs.clone();
+    let dev2 = dev.clone();
+    let signed = match guarded(move || r3.signed(&dev2).map_err(|e| e.to_string())) {
+        Ok(Ok(s)) => s,
+        other => {
+            rep.inconclusive("Refs::signed failed", json!({"got": format!("{:?}", other.map(|r| r.map(|_| ())))}));
+            return;
+        }
+    };
+    let sig = signed.signature;
+    if signed.id != key || from_refs(&signed.refs) != *truth {
+        rep.violation("C20/signed/value-differs-from-input", base.clone());
+    }
+    if !own_verify(&key, &text, &sig) {
+        // what `signed` signs is not the canonical text of the refs
+        rep.violation("C20/signed/signature-is-not-over-canonical-text", base.clone());
+        return;
+    }
+    let repo = &fx.a;
+    if judge_struct(rep, repo, truth, &key, &sig, "honest", Expect::Honest, &base) != Some(true) {
+        return;
+    }
+    if case.with_root {
+        rep.count("root.present-and-bound-to-this-repository");
+        // the same signed refs presented to another repository (counted only, see module doc)
+        let (k, s, r) = (key, sig, refs.clone());
+        match guarded(move || SignedRefs::new(r, k, s).verified(&fx.b).is_ok()) {
+            Ok(true) => rep.count("observation:root-of-other-repository-accepted"),
+            Ok(false) => rep.count("root.other-repository-rejected"),
+            Err(_) => {}
+        }
+    }
+    if rep.wants_sample() && truth.len() >= 2 && truth.len() <= 4 && text.len() < 400 {
+        rep.sample(json!({"canonical_text": String::from_utf8_lossy(&text), "key": key.to_string(), "signature": sig.to_string()}));
+    }
+
+    // (3) struct-level mutations
+    let names: Vec<String> = truth.keys().cloned().collect();
+    let other_dev = {
+        let mut s = case.seed;
+        s[0] ^= 0x55;
+        signer(&s)
+    };
+    for _ in 0..6 {
+        let mut r = truth.clone();
+        let mut k = key;
+        let mut s = sig;
+        let label: &str = match rng.below(13) {
+            0 if !names.is_empty() => {
+                let n = rng.pick(&names).clone();
+                let o = r.get_mut(&n).unwrap();
+                o[rng.usize(20)] ^= 1 << rng.below(8);
+                if *o == [0u8; 20] {
+                    continue;
+                }
+                "oid-bit-flipped"
+            }
+            1 if !names.is_empty() => {
+                let n = rng.pick(&names).clone();
+                r.insert(n, gen_oid(rng));
+                "oid-replaced"
+            }
+            2 if !names.is_empty() => {
+                let n = rng.pick(&names).clone();
+                let o = r.remove(&n).unwrap();
+                r.insert(other_valid_name(rng, truth), o);
+                "ref-renamed"
+            }
+            3 if !names.is_empty() => {
+                let n = rng.pick(&names).clone();
+                r.remove(&n);
+                "ref-removed"
+            }
+            4 => {
+                r.insert(other_valid_name(rng, truth), gen_oid(rng));
+                "ref-added"
+            }
+            5 if names.len() >= 2 => {
+                let a = rng.pick(&names).clone();
+                let b = rng.pick(&names).clone();
+                let (oa, ob) = (r[&a], r[&b]);
+                if oa == ob {
+                    continue;
+                }
+                r.insert(a, ob);
+                r.insert(b, oa);
+                "oids-swapped"
+            }
+            6 => {
+                let mut kb = [0u8; 32];
+                kb.copy_from_slice(&key[..]);
+                kb[rng.usize(32)] ^= 1 << rng.below(8);
+                k = PublicKey::from(kb);
+                "key-bit-flipped"
+            }
+            7 => {
+                k = *other_dev.public_key();
+                "key-of-someone-else"
+            }
+            8 | 9 => {
+                let mut sb = [0u8; 64];
+                sb.copy_from_slice(sig.as_ref());
+                sb[rng.usize(64)] ^= 1 << rng.below(8);
+                s = Signature::from(sb);
+                "signature-bit-flipped"
+            }
+            10 => {
+                // a valid signature, but by another key
+                use radicle::crypto::signature::Signer as _;
+                match other_dev.try_sign(&text) {
+                    Ok(x) => s = x,
+                    Err(_) => continue,
+                }
+                "signature-by-other-key"
+            }
+            11 => {
+                // a valid signature by the right key over other refs
+                use radicle::crypto::signature::Signer as _;
+                let mut r2 = truth.clone();
+                r2.insert(other_valid_name(rng, truth), gen_oid(rng));
+                match dev.try_sign(&own_canonical(&r2)) {
+                    Ok(x) => s = x,
+                    Err(_) => continue,
+                }
+                "signature-over-other-refs"
+            }
+            12 if case.with_root => {
+                // re-point the identity root: to the other repository's root, or to nothing known
+                let o = if rng.bool() { fx.root_b } else { gen_oid(rng) };
+                r.insert("refs/rad/root".into(), o);
+                "root-repointed"
+            }
+            _ => continue,
+        };
+        if r == *truth && k == key && s == sig {
+            continue;
+        }
+        rep.count(&format!("mutation:{label}"));
+        judge_struct(rep, repo, &r, &k, &s, label, Expect::Mutated, &base);
+    }
+
+    // (4) blob-level mutations
+    if exhaustive && text.len() <= 160 && !text.is_empty() {
+        rep.count("exhaustive-single-byte-mutation-sets");
+        for i in 0..text.len() {
+            for bit in 0..8 {
+                let mut v = text.clone();
+                v[i] ^= 1 << bit;
+                judge_blob(rep, repo, &v, truth, &key, &sig, "bit-flip", &base);
+            }
+            let mut v = text.clone();
+            v.remove(i);
+            judge_blob(rep, repo, &v, truth, &key, &sig, "byte-deleted", &base);
+            for ins in [b' ', b'\n', b'\r', b'0', b'a', b'/', 0u8] {
+                let mut v = text.clone();
+                v.insert(i, ins);
+                judge_blob(rep, repo, &v, truth, &key, &sig, "byte-inserted", &base);
+            }
+        }
+    } else {
+        for _ in 0..8 {
+            let (v, label) = mutate_blob(rng, &text);
+            if v == text {
+                continue;
+            }
+            rep.count(&format!("blob-mutation:{label}"));
+            judge_blob(rep, repo, &v, truth, &key, &sig, label, &base);
+        }
+    }
+
+    // (5) through git
+    if git_sample {
+        judge_git(rep, repo, &text, sig.as_ref(), &key, "honest", &base);
+        for _ in 0..3 {
+            let (v, label) = mutate_blob(rng, &text);
+            if v != text {
+                judge_git(rep, repo, &v, sig.as_ref(), &key, label, &base);
+            }
+        }
+        let mut sb = sig.as_ref().to_vec();
+        match rng.below(4) {
+            0 => {
+                sb.pop();
+            }
+            1 => sb.push(0),
+            2 => sb.clear(),
+            _ => {
+                let i = rng.usize(sb.len());
+                sb[i] ^= 1 << rng.below(8);
+            }
+        }
+        judge_git(rep, repo, &text, &sb, &key, "signature-blob-mutated", &base);
+        judge_git(rep, repo, &text, sig.as_ref(), other_dev.public_key(), "key-of-someone-else", &base);
+    }
+}
+
+fn replay(rep: &mut Reporter, w: &Value, fx: &Fx) {
+    let truth = refs_from_json(&w["refs"]);
+    let mut seed = [0u8; 32];
+    if let Some(s) = w["signer_seed"].as_str().and_then(unhex) {
+        if s.len() == 32 {
+            seed.copy_from_slice(&s);
+        }
+    }
+    let base = json!({"refs": refs_json(&truth), "signer_seed": hex(&seed)});
+    let m = &w["mutation"];
+    let key: Option<PublicKey> = m["key"].as_str().and_then(|k| k.parse().ok());
+    let sigb = m["sig"].as_str().and_then(unhex).unwrap_or_default();
+    let (Some(key), Some(path)) = (key, m["path"].as_str()) else {
+        // a round-trip witness: re-run the round trip
+        rep.eval();
+        if let Some(refs) = to_refs(&truth) {
+            match Refs::from_canonical(&refs.canonical()) {
+                Ok(b) if b == refs => rep.count("roundtrip.ok"),
+                _ => rep.violation("C20/roundtrip/parsed-set-differs", base),
+            }
+        }
+        return;
+    };
+    let label = m["label"].as_str().unwrap_or("replay").to_string();
+    match path {
+        "struct" => {
+            let r = refs_from_json(&m["refs"]);
+            if let Ok(sig) = Signature::try_from(sigb.as_slice()) {
+                judge_struct(rep, &fx.a, &r, &key, &sig, &label, Expect::Mutated, &base);
+            }
+        }
+        "blob" => {
+            let blob = m["blob_hex"].as_str().and_then(unhex).unwrap_or_default();
+            if let Ok(sig) = Signature::try_from(sigb.as_slice()) {
+                judge_blob(rep, &fx.a, &blob, &truth, &key, &sig, &label, &base);
+            }
+        }
+        _ => {
+            let blob = m["blob_hex"].as_str().and_then(unhex).unwrap_or_default();
+            judge_git(rep, &fx.a, &blob, &sigb, &key, &label, &base);
+        }
+    }
+}
+
+pub fn run(args: &Args) {
+    let mut rep = Reporter::new("C20");
+    let fx = match fixture() {
+        Ok(f) => f,
+        Err(e) => {
+            rep.inconclusive("storage fixture", json!({"error": e}));
+            rep.finish();
+            return;
+        }
+    };
+    let _ = Path::new(".");
+    if let Some(path) = &args.replay {
+        let w = vcommon::load_replay(path);
+        replay(&mut rep, &w, &fx);
+        rep.finish();
+        return;
+    }
+    let n = args.budget(24_000, 800_000);
+    for k in 0..n {
+        let mut rng = Rng::new(args.case_seed(k));
+        run_case(&mut rep, &mut rng, &fx, k % 24 == 0, k % 6 == 1);
+    }
+    rep.finish();
+}
